@@ -167,6 +167,7 @@ pub struct SimPeer {
     sent: u64,
     /// tx hashes announced to this peer over the relay protocol (per session)
     pub relay_announced: Vec<packed::Byte32>,
+    pub lag: u64,
 }
 
 pub struct Sim {
@@ -226,6 +227,7 @@ impl Sim {
                 last_deliver: HashMap::new(),
                 sent: 0,
                 relay_announced: Vec::new(),
+                lag: p.lag,
             })
             .collect();
         let oracle = Checker::new(&plan);
@@ -391,8 +393,9 @@ impl Sim {
     pub fn refresh_view(&mut self, p: usize, announce: bool) {
         let branch = self.peers[p].branch;
         let tip = self.world.tip_number(branch);
-        let lag = self.plan.peers[p].lag;
-        let height = tip.saturating_sub(lag);
+        let lag = self.peers[p].lag;
+        // a node whose tip is the (month old) genesis block is in initial block download
+        let height = tip.saturating_sub(lag).max(1.min(tip));
         let new_view = View { branch, height };
         let old = self.peers[p].view;
         self.peers[p].view = new_view;
@@ -904,6 +907,13 @@ impl Sim {
                         self.stat("fault.peer_disconnect");
                         self.close_session(s, false);
                     }
+                }
+            }
+            Action::SetLag { peer, lag } => {
+                self.last_event_kind = "setlag".into();
+                if peer < self.peers.len() {
+                    self.peers[peer].lag = lag;
+                    self.refresh_view(peer, true);
                 }
             }
             Action::Stall { peer, ms } => {
